@@ -88,8 +88,8 @@ CLAIMED.update({
              'StateValue variants) and symbolic contents (including values that are themselves handle keys); the real run of 21 Rust-implemented collection '
              'commands + release is executed with symbolic handle / index / value arguments. Obligations: wrong-kind, unknown or released handle -> error (or '
              'false) and every collection unchanged (the restore-on-mismatch arms of mutate_list/map/set); on a match exactly the specified effect; verbatim values.',
-        note='Bounds: <= 3 live handles, collections <= 2 elements, values <= 2 (quick) / 3 (thorough) chars. Script-implemented collection commands n/a; '
-             'handle distinctness rests on the RNG (stubbed as an arbitrary non-live key). ' + TRUST,
+        note='Bounds: <= 3 live handles, collections <= 2 elements (items are strings or the numbers range stores), values <= 2 (quick) / 3 (thorough) chars. '
+             'Script-implemented commands: see the script:* jobs below; array_concat n/a (too slow). Handle distinctness rests on the RNG (stubbed as an arbitrary non-live key). ' + TRUST,
         ref='4/C12'),
     'C16': dict(
         text='Bounded model checking of the run functions of length, indexof, last_indexof, contains, starts_with, ends_with, equals, is_empty, trim*, '
@@ -110,7 +110,8 @@ CLAIMED.update({
              'variables and the array length of each program is executed; the array items are symbolic and decided by the solver.',
         note='Programs: quick 60, thorough 400 (seeded). Open known finding forin-left-by-return (programs with a return inside a for-in are excluded from the main '
              'query and re-confirmed). Left open as in the property: positional variables after unscoped calls; scoped call without value into an already defined '
-             'output variable. Calls in condition position not generated. The control dimension is enumerated, only the data dimension is solver-decided. ' + TRUST,
+             'output variable; inside a condition call, output variables of calls that end without a value. Calls in condition position (if [not] f args) are generated '
+             'with concrete argument words. The control dimension is enumerated, only the data dimension is solver-decided. ' + TRUST,
         ref='4/C05'),
     'C04': dict(
         text='Layer 1, bounded model checking of the block-boundary discovery (utils::instruction_query::find_commands and create_if/while/forin_meta_info_for_line) '
@@ -157,8 +158,8 @@ CLAIMED.update({
              'set_line_context_name, put_handle / get_handles_sub_state) with the script body replaced by a havoc stub constrained by the wrapper contract (it may '
              'add, change or remove any variable under the scope prefix and return any result): after run, for every result kind, the caller variables are exactly '
              'as before, no scope::<cmd>:: variable and no published argument remains, and the handle table is exactly as before (temporary argument array released).',
-        note='Reduced scope: that each of the 21 real script.ds bodies keeps its working variables under its prefix and releases what it creates is NOT checked '
-             '(property of script texts whose commands are backed by third-party crates). 0..3 arguments, 3 caller variables incl. near-miss prefixes, 0..2 handles. ' + TRUST,
+        note='The wrapper jobs cover every body abstractly; 11 of the 21 real script.ds bodies are also run for real (body:* jobs, below); the other 10 call commands '
+             'backed by the file system, network, processes or hashing crates (array_concat: too slow). 0..3 arguments, 3 caller variables incl. near-miss prefixes, 0..2 handles. ' + TRUST,
         ref='4/C19'),
     'C20': dict(
         text='Bounded model checking of the CLI MIR (main, run_cli, run_script, linter::lint_file / lint_instructions / lint_instruction / is_lower_case) with the '
@@ -187,7 +188,8 @@ LEMMAS = {
            'create_runtime keep the very halt flag the embedder passed (pointer identity) for every combination of writers.',
     'C04': 'Also: if, elseif and else as single steps from an arbitrary call-info stack with block boundaries and condition value as arbitrary results: a branch '
            'runs iff no earlier one ran and its condition holds, the condition is not evaluated once a branch ran, a skipped branch jumps to the next branch line or '
-           'behind the end; while / end_while and for / end_for (pass k binds element k) likewise (DESIGN.md 8.20).',
+           'behind the end; while / end_while and for / end_for (pass k binds element k) likewise, with entries of another line context (the body of a script-implemented '
+           'command) allowed on the same line numbers (DESIGN.md 8.20).',
     'C05': 'Also: call, return and end of a function as single steps from an arbitrary call stack (entries pushed by the real push_to_call_stack from symbolic '
            'values), arbitrary variables and scope stack: recursion of any depth and call sequences of any length by induction (DESIGN.md 8.18).',
     'C06': 'Also: per-token lemmas of eval_condition_for_slice from an arbitrary evaluator state (START / AT / AND / OR / GROUP(k)) with the recursive group '
@@ -202,11 +204,15 @@ LEMMAS = {
            'obligations of the runner step lemma (DESIGN.md 8.7, 8.9).',
     'C14': 'Also: lemmas for the include argument loop (25 includer/path pairs, arbitrary collected list and parse_file result), directive dispatch, parse_file, '
            'parse_text_with_source_file and parse_lines: include trees of any shape by induction on depth (DESIGN.md 8.10).',
-    'C19': 'Also: the REAL bodies (script.ds as compiled into the MIR constants of the current tree) of unset, map_contains_key, array_is_empty, set_is_empty, '
-           'map_is_empty, set_from_array (thorough: concat) run through the real AliasCommand::run, eval_instructions, runner::run_instruction and the real '
-           'commands their bodies use, with symbolic arguments, caller variables (incl. near-miss prefixes) and collections.',
+    'C19': 'Also: the REAL bodies (script.ds as compiled into the MIR constants of the current tree) of unset, concat, map_contains_key, array_is_empty, set_is_empty, '
+           'map_is_empty, set_from_array, array_join, array_contains, map_contains_value run through the real AliasCommand::run, eval_instructions (explored per script '
+           'line), runner::run_instruction and the real commands their bodies use, with symbolic arguments, caller variables (incl. near-miss prefixes) and collections '
+           '(sizes and values used in condition position enumerated for the last four; calc stubbed as integer +/-).',
     'C12': 'Also: the creating commands array, map, set_new, map_keys, set_to_array from a symbolic handle table: the result is a handle that was not live, every '
-           'live handle is unchanged, exactly one handle is added, the new collection holds exactly what the model says.',
+           'live handle is unchanged, exactly one handle is added, the new collection holds exactly what the model says. The script-implemented commands array_join, '
+           'array_contains, map_contains_value, map_contains_key, set_from_array and *_is_empty: their REAL script.ds bodies run through AliasCommand::run and the real '
+           'commands they call, output compared with the reference collection (sizes enumerated, contents symbolic; array_join separator from a panel of concrete '
+           'separators; calc stubbed as integer +/-).',
     'C07': 'Also: utils::eval::parse (the re-serialiser behind eval, alias commands and command conditions) on an arbitrary argument vector: no panic site reachable.',
     'C16': 'Also: less_than / greater_than on plain integer literals (partial f64 model: integer literals exact, strings with a character no number literal has '
            'are errors; fractions, exponents, inf, nan outside); split and replace with a non-empty symbolic pattern (the pieces joined by the separator give back '
